@@ -134,7 +134,7 @@ def run(rep, facts, tier):
         "X1*Y2 - Y1*X2 = 0 on the operands' own coordinates. OBS: the Hash impls may observe self only through bytes(encode(self)) - an "
         "observation-class (shield) dataflow rule over the hasher writes. IDENT: identity predicates normalise to X == 0; identity values denote "
         "G_ZERO; the identity constants are (0:1:1:0).")
-    rep.rules += ["TERM", "OBS", "IDENT", "CONST"]
+    rep.rules += ["TERM", "OBS", "IDENT", "CONST", "OVERRIDE (provided methods of core / subtle traits overridden for Element / AffinePoint: ne, hash_slice, conditional_assign / swap, clone_from)"]
     rep.trusted += ["rustc trait resolution", "summary table"]
     rep.assumptions += ["'equal iff same encoding' beyond conformance of eq and encode is Decaf section 4.5 (assumed)",
                         "AffineRepr::xy / x / y expose raw coordinates by design and are accessors, not identity predicates"]
@@ -145,6 +145,7 @@ def run(rep, facts, tier):
         cfg = Cfg(f)
         counts[name] = {"eq": check_eq(rep, cfg), "hash": check_hash(rep, cfg), "identity": check_identity(rep, cfg) + check_inherited_predicates(rep, cfg)}
         c17.curve_constants(rep, f, name)
+        counts[name]["core_overrides"] = G.check_core_overrides(rep, cfg, G.POINT_SORTS)
     rep.analysed["observers"] = counts
     if "A" in counts:
         rep.floor("eq_impls_A", counts["A"]["eq"], 2)
